@@ -154,7 +154,8 @@ def run(repo, rep, tier):
         if "Moon.Moon." + q not in bad:
             rep.ok("R-ENUM", "Moon.Moon." + q, "string dispatch exhaustive for the validated set")
     # every target string the validation admits must take the branch it names (no raw comparison next to a case-normalised one)
-    from .c20 import r_enum_norm
+    from .c20 import r_enum_norm, r_wrap_idiom
+    r_wrap_idiom(repo, rep, mods={MOD})
     r_enum_norm(repo, rep, funcs={(MOD, f_) for f_ in repo.mod(MOD).functions})
     fam = [(MOD, q) for q in repo.mod(MOD).functions if not repo.mod(MOD).is_demo(q) and "<locals>" not in q]
     timearg_scan(repo, rep, fam)
